@@ -224,7 +224,9 @@ JWalk(line, objin) ==
     fail |->
       If(\A i \in 1..Len(rs) : rs[i].mis = 0, "walk_aligned") \cup
       If(\A i, j \in real : i < j => rs[i].hi <= rs[j].lo, "walk_disjoint") \cup
-      If(\A i \in real : rs[i].nocopy \/ \A k \in 1..Len(ins) : rs[i].hi <= ins[k].lo \/ rs[i].lo >= ins[k].hi, "walk_noinput") \cup
+      If(/\ \A i \in real : rs[i].nocopy \/ \A k \in 1..Len(ins) : rs[i].hi <= ins[k].lo \/ rs[i].lo >= ins[k].hi
+         \* also an empty slice / string must not point into the input (it would keep the buffer alive)
+         /\ \A i \in 1..Len(rs) : rs[i].nocopy \/ rs[i].off < 0, "walk_noinput") \cup
       If(\A i \in 1..Len(rs) :
             rs[i].nocopy =>
               IF rs[i].len = 0 THEN rs[i].off < 0          \* a zero-length value does not reference the buffer
